@@ -330,6 +330,9 @@ package analysis
 //@   ensures *primary == old(*primary) with {Description: fill(old(primary.Description), old(m.Description)), URL: fill(old(primary.URL), old(m.URL))}
 //@   ensures len(result) == 0
 
+// one warning per colliding extension key (none when the primary has no extension map)
+//@ fun extColl(p spec.Extensions, m spec.Extensions) int = if p == nil then 0 else cardInter(dom(m), dom(p))
+
 //@ func mergeInfo(primary, m)
 //@   requires primary != nil && m != nil
 //@   requires primary.Extensions == nil || primary.Extensions != m.Extensions
@@ -339,6 +342,8 @@ package analysis
 //@   requires primary.License != nil && m.License != nil && primary.Extensions != nil ==> primary.Extensions != primary.License.Extensions && primary.Extensions != m.License.Extensions
 //@   requires primary.License != nil && m.License != nil && primary.Contact != nil && m.Contact != nil && primary.Contact.Extensions != nil ==> primary.Contact.Extensions != primary.License.Extensions && primary.Contact.Extensions != m.License.Extensions
 //@   requires primary != m && primary.Contact != m.Contact && primary.License != m.License
+//@   requires primary.Extensions != nil ==> (m.Contact != nil ==> primary.Extensions != m.Contact.Extensions) && (m.License != nil ==> primary.Extensions != m.License.Extensions)
+//@   requires primary.Contact != nil && primary.Contact.Extensions != nil ==> (m.License != nil ==> primary.Contact.Extensions != m.License.Extensions)
 //@   modifies *primary, *primary.Contact, *primary.License, map primary.Extensions, map primary.Contact.Extensions, map primary.License.Extensions
 //@   ensures primary.Description == fill(old(primary.Description), m.Description) && primary.Title == fill(old(primary.Title), m.Title)
 //@   ensures primary.TermsOfService == fill(old(primary.TermsOfService), m.TermsOfService) && primary.Version == fill(old(primary.Version), m.Version)
@@ -349,6 +354,7 @@ package analysis
 //@   ensures old(primary.Contact) != nil && m.Contact == nil ==> *primary.Contact == old(*primary.Contact)
 //@   ensures old(primary.License) != nil && m.License == nil ==> *primary.License == old(*primary.License)
 //@   ensures primary.Extensions == (if old(primary.Extensions) == nil then m.Extensions else old(primary.Extensions))
+//@   ensures len(result) == old(extColl(primary.Extensions, m.Extensions)) + (if old(primary.Contact) != nil && old(m.Contact) != nil then old(extColl(primary.Contact.Extensions, m.Contact.Extensions)) else 0) + (if old(primary.License) != nil && old(m.License) != nil then old(extColl(primary.License.Extensions, m.License.Extensions)) else 0)
 //@   ensures old(primary.Extensions) != nil ==> forall k string :: (k in dom(primary.Extensions)) ==> (old(k in dom(primary.Extensions)) || old(k in dom(m.Extensions)))
 //@   ensures old(primary.Extensions) != nil ==> forall k string :: old(k in dom(primary.Extensions)) ==> k in dom(primary.Extensions) && primary.Extensions[k] == old(primary.Extensions[k])
 
